@@ -31,8 +31,11 @@ ASSUMPTIONS = [
     'the drift guard and the bin means use scipp\'s (not left-to-right) summation: the guard decision is compared '
     'with exact rationals outside a relative band of 1e-9 around the bound, means to 1e-12 of the mean magnitude',
     'in_phase_iff is proved over exact rationals; the binary64 decision is compared bit-exactly by the correspondence',
-    'collapse interval theorem: proved for any total order with x < next x, instantiated for int64/datetime64 '
-    '(next = +1) and exact rationals; for binary64 coordinates containment is checked by computation on every case',
+    'collapse interval theorem: proved for any coordinate order that is total on the occurring coordinates with '
+    'next(x) above x; instantiated for int64/datetime64 (next = +1), exact rationals, and finite binary64 '
+    '(next = nextafter(+inf), via Flocq: uses the FloatAxioms specifications of the primitive float operations)',
+    'in-phase: n = 0 is an admissible integer on both sides, as in the design statement: |f| < rtol*|ref| is kept '
+    '(f ~ 0*ref) and |f| > |ref|/rtol is kept (ref ~ 0*f); f = 0 is kept through the multiple side only',
 ]
 
 HARNESS = 'c19_impl.py'
@@ -399,8 +402,8 @@ def describe(case, obs=None, full=False):
 
 
 def gen_cases(rng, tier):
-    n_pl = 800 if tier == 'quick' else 6000
-    n_ph = 300 if tier == 'quick' else 2500
+    n_pl = 800 if tier == 'quick' else 15000
+    n_ph = 300 if tier == 'quick' else 6000
     cases = [gen_plateau(rng, tier) for _ in range(n_pl)] + [gen_phase(rng) for _ in range(n_ph)]
     # a few fixed series: the shapes of the upstream tests and the documented corner cases
     fixed = [
@@ -571,9 +574,9 @@ LEVEL_TEXT = ('Proof (Coq, axiom-free): for every series (any length >= 1, any a
               'slice of the input - and returns iff the drift guard is silent; collapse gives the mean and [min, next(max)) '
               'containing every point; filter_in_phase keeps f iff |f/ref-n|<rtol or |ref/f-n|<rtol for an integer n (exact '
               'rationals). The hand model is tied to the code by a bit-exact binary64 (PrimFloat) correspondence executed in Coq '
-              'on every run (~210 series quick) including slopes exactly at / one ulp from the tolerance.')
+              'on every run (~1100 cases quick) including slopes exactly at / one ulp from the tolerance.')
 LEVEL_NOTE = ('Tie is correspondence (B), not translation: the model of cumsum/group/bins is hand-written and validated against '
               'the real scipp on generated series each run. Drift-guard decision and means are compared against exact rationals '
               '(band 1e-9 / 1e-12) because scipp sums in a different order. in_phase_iff is over Q; the float decision is '
-              'compared case by case. Float-coordinate interval containment is checked per case, proved for int/datetime/Q.')
+              'compared case by case. The binary64 interval theorem depends on FloatAxioms (primitive-float specs) and the real-number axioms.')
 TECHNIQUE = 'Coq proofs over an abstract carrier (lists, induction) + vm_compute correspondence with PrimFloat (binary64) and exact rationals'
